@@ -807,6 +807,8 @@ def install(lib):
                 return a[2]
             it.raise_('KeyError', line=n.lineno)
         o = lib._map_opt(c)
+        for hook in getattr(c, 'on_key', ()):
+            hook(it, kt)
         cell = simp(z3.Select(c.t, kt))
         if it.ctx.branch(o.is_none(cell), 'pop-missing'):
             if has_default:
